@@ -312,6 +312,7 @@ type node struct {
 	stateDB *db.DB
 	roots   map[int][]byte // root after the block at that height (engine's view)
 	tip     int
+	final   int // highest height passed to Finalize
 }
 
 func newNode() *node {
@@ -523,6 +524,29 @@ func (n *node) revert(expected string) stepRec {
 		n.tip = height - 1
 	}
 	st.TreeRef = st.Dump.TRoot == hex.EncodeToString(ref)
+	return st
+}
+
+// Finalize(fh): the engine tells the application that everything up to fh is final (diffs below fh are pruned)
+func (n *node) finalize(fh int) stepRec {
+	st := stepRec{T: "fin", Height: n.tip, Last: fh, Expected: "none"}
+	st.Panic = guard(func() {
+		if _, err := n.h.Finalize(&labi.FinalizeRequest{FinalizedHeight: uint32(fh)}); err != nil {
+			st.Res = "err:" + err.Error()
+		} else {
+			st.Res = "ok"
+		}
+	})
+	if st.Panic != "" {
+		st.Res = "panic"
+	}
+	if fh > n.final {
+		n.final = fh
+	}
+	var ref []byte
+	st.Dump, ref = n.dump()
+	st.TreeRef = st.Dump.TRoot == hex.EncodeToString(ref)
+	st.RootRef = true
 	return st
 }
 
@@ -941,6 +965,8 @@ func main() {
 					outRec.Steps = append(outRec.Steps, n.gen(s.Height, s.Cands))
 				case "cblock":
 					outRec.Steps = append(outRec.Steps, n.cblock(s.Height, s.Cands, s.NB, s.NA))
+				case "fin":
+					outRec.Steps = append(outRec.Steps, n.finalize(s.Last))
 				case "revert":
 					outRec.Steps = append(outRec.Steps, n.revert(s.Expected))
 				case "init":
@@ -957,6 +983,10 @@ func main() {
 		for j := 0; j < *nsteps; j++ {
 			x := r.Intn(20)
 			switch {
+			case x == 18 && n.tip > 0 && r.Intn(2) == 0:
+				// the engine finalises some height up to its tip; reverts / restarts below it are no longer its business,
+				// but everything from the finalised height upwards must stay undoable
+				rec.Steps = append(rec.Steps, n.finalize(n.final+r.Intn(n.tip-n.final+1)))
 			case x == 19:
 				txs := []txScript{}
 				for k := r.Intn(4); k > 0; k-- {
@@ -1008,12 +1038,42 @@ func main() {
 				exp := []string{"none", "none", "right", "wrong"}[r.Intn(4)]
 				mid := []string{"", "", "dry", "wrong"}[r.Intn(4)]
 				rec.Steps = append(rec.Steps, n.block(n.tip+1, txs, r.Intn(8) == 0, exp, mid))
+			case x == 15 && n.tip > n.final+1:
+				// a fork switch two blocks deep whose new branch has a block that does not touch the state: the diff of the
+				// old block at that height must not be what a later revert / restart applies
+				rec.Steps = append(rec.Steps, n.revert("right"))
+				rec.Steps = append(rec.Steps, n.revert("right"))
+				rec.Steps = append(rec.Steps, n.block(n.tip+1, []txScript{randTx(r)}, false, "none", ""))
+				idle := []txScript{}
+				for k := r.Intn(3); k > 0; k-- { // commands that fail (or nothing at all): no state change
+					t := randTx(r)
+					t.Before, t.After = script{Acts: []act{}}, script{Acts: []act{}}
+					t.Command.Fail = true
+					t.Unknown = false
+					kept := []act{}
+					for _, a := range t.Command.Acts {
+						if !(a.Op == "restore" && a.View == 0) {
+							kept = append(kept, a)
+						}
+					}
+					t.Command.Acts = kept
+					idle = append(idle, t)
+				}
+				rec.Steps = append(rec.Steps, n.block(n.tip+1, idle, false, "none", ""))
+				if r.Bool() {
+					rec.Steps = append(rec.Steps, n.revert("right"))
+				} else {
+					rec.Steps = append(rec.Steps, n.init(n.tip-1, "right"))
+				}
 			case x < 16:
 				rec.Steps = append(rec.Steps, n.revert([]string{"none", "right", "right", "wrong"}[r.Intn(4)]))
 			default:
 				last := n.tip - r.Intn(3)
 				if last < 0 {
 					last = 0
+				}
+				if last < n.final {
+					last = n.final
 				}
 				if r.Intn(8) == 0 {
 					last = n.tip + 1
